@@ -2,6 +2,14 @@
 
 package j5reflect
 
+import (
+	"encoding/json"
+	"strconv"
+
+	"github.com/pentops/j5/gen/j5/schema/v1/schema_j5pb"
+	"google.golang.org/protobuf/reflect/protoreflect"
+)
+
 // Contracts for contract-based verification (/verif, properties C06, C03, C01, C18).
 
 // A value handed to protobuf-go's List.Append / Map.Set must be valid: these two helpers pass their
@@ -255,3 +263,60 @@ package j5reflect
 //@ func newLeafMapField
 //@   requires scalarOK(schema.Schema)
 //@   ensures scalar: result1 == nil && typeis(result0, *mapOfScalarField) ==> as(*mapOfScalarField, result0) != nil && as(*mapOfScalarField, result0).itemSchema != nil && as(*mapOfScalarField, result0).itemSchema.Proto != nil
+
+// ---- JSON round trip (C01): integer members ----------------------------------------------------------
+// The Go value handed to the encoder is the number the proto value holds, in the Go type of the
+// format; the encoder writes its decimal rendering (bare for 32-bit, quoted for 64-bit: C08), and
+// the decoder, given that text, stores the same number (C03). The lemma functions below compose
+// the real conversion functions around strconv's rendering.
+//@ func scalarGoFromReflect
+//@   ensures go.int32: result1 == nil && intFmt(schema, schema_j5pb.IntegerField_FORMAT_INT32) && 0 - 2147483648 <= pvNum(val) && pvNum(val) <= 2147483647 ==> typeis(result0, int32) && as(int32, result0) == pvNum(val)
+//@   ensures go.int64: result1 == nil && intFmt(schema, schema_j5pb.IntegerField_FORMAT_INT64) ==> typeis(result0, int64) && as(int64, result0) == pvNum(val)
+//@   ensures go.uint32: result1 == nil && intFmt(schema, schema_j5pb.IntegerField_FORMAT_UINT32) && 0 <= pvNum(val) && pvNum(val) <= 4294967295 ==> typeis(result0, uint32) && as(uint32, result0) == pvNum(val)
+//@   ensures go.uint64: result1 == nil && intFmt(schema, schema_j5pb.IntegerField_FORMAT_UINT64) ==> typeis(result0, uint64) && as(uint64, result0) == pvNum(val)
+//@   ensures go.ok: (intFmt(schema, schema_j5pb.IntegerField_FORMAT_INT32) || intFmt(schema, schema_j5pb.IntegerField_FORMAT_INT64) || intFmt(schema, schema_j5pb.IntegerField_FORMAT_UINT32) || intFmt(schema, schema_j5pb.IntegerField_FORMAT_UINT64)) ==> result1 == nil
+
+//@ func verifLemmaInt64RoundTrip
+//@   requires schema != nil && intFmt(schema, schema_j5pb.IntegerField_FORMAT_INT64) && 0 - 9223372036854775808 <= pvNum(pv) && pvNum(pv) <= 9223372036854775807
+//@   ensures roundtrip: result1 == nil && pvValid(result0) && pvNum(result0) == pvNum(pv)
+//@ func verifLemmaUint64RoundTrip
+//@   requires schema != nil && intFmt(schema, schema_j5pb.IntegerField_FORMAT_UINT64) && 0 <= pvNum(pv) && pvNum(pv) <= 18446744073709551615
+//@   ensures roundtrip: result1 == nil && pvValid(result0) && pvNum(result0) == pvNum(pv)
+//@ func verifLemmaInt32RoundTrip
+//@   requires schema != nil && intFmt(schema, schema_j5pb.IntegerField_FORMAT_INT32) && 0 - 2147483648 <= pvNum(pv) && pvNum(pv) <= 2147483647
+//@   ensures roundtrip: result1 == nil && pvValid(result0) && pvNum(result0) == pvNum(pv)
+//@ func verifLemmaUint32RoundTrip
+//@   requires schema != nil && intFmt(schema, schema_j5pb.IntegerField_FORMAT_UINT32) && 0 <= pvNum(pv) && pvNum(pv) <= 4294967295
+//@   ensures roundtrip: result1 == nil && pvValid(result0) && pvNum(result0) == pvNum(pv)
+
+func verifLemmaInt64RoundTrip(schema *schema_j5pb.Field, pv protoreflect.Value) (protoreflect.Value, error) {
+	g, err := scalarGoFromReflect(schema, pv)
+	if err != nil {
+		return protoreflect.Value{}, err
+	}
+	return scalarReflectFromGo(schema, strconv.FormatInt(g.(int64), 10)) // quoted on the wire
+}
+
+func verifLemmaUint64RoundTrip(schema *schema_j5pb.Field, pv protoreflect.Value) (protoreflect.Value, error) {
+	g, err := scalarGoFromReflect(schema, pv)
+	if err != nil {
+		return protoreflect.Value{}, err
+	}
+	return scalarReflectFromGo(schema, strconv.FormatUint(g.(uint64), 10)) // quoted on the wire
+}
+
+func verifLemmaInt32RoundTrip(schema *schema_j5pb.Field, pv protoreflect.Value) (protoreflect.Value, error) {
+	g, err := scalarGoFromReflect(schema, pv)
+	if err != nil {
+		return protoreflect.Value{}, err
+	}
+	return scalarReflectFromGo(schema, json.Number(strconv.FormatInt(int64(g.(int32)), 10))) // bare on the wire
+}
+
+func verifLemmaUint32RoundTrip(schema *schema_j5pb.Field, pv protoreflect.Value) (protoreflect.Value, error) {
+	g, err := scalarGoFromReflect(schema, pv)
+	if err != nil {
+		return protoreflect.Value{}, err
+	}
+	return scalarReflectFromGo(schema, json.Number(strconv.FormatUint(uint64(g.(uint32)), 10))) // bare on the wire
+}
